@@ -82,7 +82,7 @@ def check(prog, run):
         ok = len(deltas) == 1
         param = prev = None
         if ok:
-            e = deltas[0][1]
+            e = common.resolve_try(u, deltas[0][1])      # a checked-conversion helper `delta(a, b)?` is looked through
             subs = [t for t in sym.walk(e) if isinstance(t, tuple) and t and t[0] == "bin" and t[1] in ("Sub", "SubWithOverflow")]
             ok = len(subs) == 1 and subs[0][2][0] == "arg" and subs[0][3][0] == "load" and subs[0][3][1].startswith("arg1.")
             if ok:
@@ -128,6 +128,8 @@ def check(prog, run):
                 if r[0] == "mcall" and r[1].endswith("Iterator::map") and r[2][0] == "mcall" and r[2][1].endswith("iter"):
                     lst = r[2][2]
                     # the list summed must be the list stts iterates (its RLE entries are built from it)
+                    while lst[0] == "mcall" and lst[1].split("::")[-1] == "collect":
+                        lst = lst[2]               # `.collect()` of an iterator chain: the chain is the sequence
                     if lst[0] == "list":
                         sb = c01.bases_in(lst)
                         tb = c01.bases_in(stts[2])
@@ -135,6 +137,13 @@ def check(prog, run):
                         unit = lam is not None and lam[0] == "lambda" and _peel(lam[2]) == ("elem", lst, lam[1])
                         same_list = L.mentions(stts[2], lambda y: isinstance(y, tuple) and y[:1] == ("rep",) and False) or _list_in(stts[2], lst)
                         ok = (q in sb) and unit and same_list
+                    elif lst[0] == "mcall":
+                        # the durations are an iterator chain over the queue (`samples.iter()..map(f).collect()`): stts must iterate that very chain
+                        lam = r[3][0] if r[3] else None
+                        unit = lam is not None and lam[0] == "lambda" and _peel(lam[2])[0] == "elem" and L.strip_ids(L.freeze(_uncollect(_peel(lam[2])[1]))) == L.strip_ids(L.freeze(lst))
+                        want = L.strip_ids(L.freeze(lst))
+                        same_list = _occurs(L.strip_ids(L.freeze(stts[2])), want)
+                        ok = (q in c01.bases_in(lst)) and unit and same_list
             run.check(ok, "R4", "%s %s mdhd==sum(stts source)" % (key, kind), "mdhd.duration = sum(durations) of the list behind stts", "mdhd duration is %s, not the sum of the durations list that feeds stts" % d)
             if kind == "video":
                 ctts_rule(run, key, trak, m, q)
@@ -199,6 +208,20 @@ def _peel(e):
     return e
 
 
+def _uncollect(x):
+    while isinstance(x, tuple) and x and x[0] == "mcall" and x[1].split("::")[-1] in ("collect", "iter", "into_iter") and len(x) > 2:
+        x = x[2]
+    return x
+
+
+def _occurs(big, small):
+    if big == small:
+        return True
+    if isinstance(big, (tuple, list)):
+        return any(_occurs(y, small) for y in big)
+    return False
+
+
 def _list_in(segs, lst):
     """does the frozen/stripped list value occur as the collection of a loop in segs?"""
     want = L.strip_ids(L.freeze(lst[1]))
@@ -234,6 +257,20 @@ def ctts_rule(run, key, trak, m, q):
         el = ("elem", qe, lid)
         off = ("cast", "i32", ("bin", "Sub", ("cast", "i64", ("field", el, "pts")), ("cast", "i64", ("field", el, "dts"))))
         ok = step == ("if", ("bin", "Ne", off, ("lit", 0)), ("bool", True), ("acc", step[3][1] if step[0] == "if" and step[3][0] == "acc" else "?", lid))
+    if not ok and cond[0] == "mcall" and cond[1].split("::")[-1] == "any" and len(cond[3]) == 1 and cond[3][0][0] == "lambda":
+        # `offsets.iter().any(|&o| o != 0)` over `queue.iter().map(|s| (pts - dts) as i32).collect()`
+        lam = cond[3][0]
+        seq = _uncollect(cond[2])
+        body = lam[2]
+        el_ok = body[0] == "bin" and body[1] == "Ne" and body[3] == ("lit", 0) and _peel(body[2])[0] == "elem" and \
+            L.strip_ids(L.freeze(_uncollect(_peel(body[2])[1]))) == L.strip_ids(L.freeze(seq))
+        src_ok = False
+        if seq[0] == "mcall" and seq[1].split("::")[-1] == "map" and len(seq[3]) == 1 and seq[3][0][0] == "lambda" and _uncollect(seq[2]) == qe:
+            l2 = seq[3][0]
+            el = ("elem", qe, l2[1])
+            off = ("cast", "i32", ("bin", "Sub", ("cast", "i64", ("field", el, "pts")), ("cast", "i64", ("field", el, "dts"))))
+            src_ok = l2[2] == off
+        ok = el_ok and src_ok
     run.check(ok, "R5", key + " ctts-presence", "ctts present iff exists sample with (pts - dts) != 0", "ctts presence condition is %s" % L.show(cond)[:200])
     ctts = [x for x in alts[0][2] if x[0] == "box"][0]
     # entries derive from collect(map(iter(queue), |s| (pts - dts) as i32))
